@@ -1741,3 +1741,7 @@ mod tests {
         )
     }
 }
+
+#[cfg(librasn_compiler_verif)]
+#[allow(unused_imports)]
+pub(crate) use utils::verif_hook as verif_hook_utils;
